@@ -86,17 +86,19 @@ def sweep_history(k, k2):
 # solves it and keeps improving (pruning drops the far one), then clear() / a new definition, and the NEW query starts
 # where the old far goal was and wants to go elsewhere - whatever the planner kept of the old query is now the
 # nearest thing to reach
+# The near goal needs a detour (an optimizing planner that finds the straight line stops improving and never prunes)
+# and the far goal must be farther from the start than the detour is long.
 FORGET = [  # (W, H, obst, first query, second query)
-    (3, 3, [4], {"start": 0, "goal": 1, "xg": [8]}, {"start": 8, "goal": 2}),
-    (3, 3, [4], {"start": 0, "goal": 3, "xg": [8, 2]}, {"start": 2, "goal": 6}),
+    (4, 4, [1], {"start": 0, "goal": 2, "xg": [15]}, {"start": 15, "goal": 12}),
+    (4, 4, [4], {"start": 0, "goal": 8, "xg": [15]}, {"start": 15, "goal": 3}),
+    (4, 4, [1], {"start": 0, "goal": 2, "xs": [15]}, {"start": 12, "goal": 15}),
+    (3, 3, [1], {"start": 0, "goal": 2, "xg": [8]}, {"start": 8, "goal": 6}),
     (4, 4, [5, 6, 9], {"start": 0, "goal": 1, "xg": [15]}, {"start": 15, "goal": 3}),
-    (3, 3, [4], {"start": 1, "goal": 0, "xs": [8]}, {"start": 6, "goal": 8}),
-    (3, 3, [], {"start": 0, "goal": 1, "xg": [8]}, {"start": 8, "goal": 6}),
 ]
 
 
 def forget_histories(rng, mt, slow):
-    k1 = "k400" if (mt or slow) else rng.choice(["k150", "k300"])
+    k1 = "k400" if (mt or slow) else rng.choice(["k300", "k400"])
     k2 = "k400" if (mt or slow) else rng.choice(["k5", "k60", "k150", "inf"])
     first = [{"a": "SetPdef", "p": "A"}, {"a": "Solve", "k": "inf"}, {"a": "Solve", "k": k1}, {"a": "Solve", "k": k1}]
     if rng.random() < 0.5:   # switch to the other definition after clear()
@@ -148,7 +150,7 @@ def run(tier):
     nforget = 0
     for p in planners:
         mt, slow = bool(p["flags"] & F_MT), bool(p["flags"] & F_SLOW)
-        for W, H, obst, q1, q2 in (rng.sample(FORGET, 2) if tier == "quick" else FORGET * 3):
+        for W, H, obst, q1, q2 in (FORGET[:2] + rng.sample(FORGET[2:], 1) if tier == "quick" else FORGET * 3):
             h, same_def = forget_histories(rng, mt, slow)
             jid += 1
             nforget += 1
